@@ -3,7 +3,7 @@
 import os, json, re, glob
 VERIF = os.path.dirname(os.path.dirname(os.path.abspath(__file__)))
 rows = []
-for d in sorted(glob.glob(os.path.join(VERIF, "seeded", "C??-?"))):
+for d in sorted(glob.glob(os.path.join(VERIF, "seeded", "C??-*"))):
     sid = os.path.basename(d)
     m = json.load(open(os.path.join(d, "meta.json")))
     det = m.get("detection", {})
